@@ -1,4 +1,146 @@
 import Ptn.C17.Model
-/-! Property theorems for C17. Only property theorems and non-vacuity examples live here. -/
+import Ptn.C17.Lemmas
+import Ptn.C17.Tree
+import Ptn.C17.Path
+import Ptn.C17.Unique
+import Ptn.C17.Linear
+import Ptn.C17.Reroot
+import Ptn.C17.Subtree
+/-! Property theorems for C17 (tree navigation, TDVP sweep order, initial cache keys).  Only
+property theorems and non-vacuity examples live here; helper lemmas are in `Lemmas.lean`,
+`Tree.lean`, `Path.lean`, ….  All theorems quantify over every ordered rooted tree `t` with
+distinct identifiers (`t.WF`), without any bound on its size. -/
 namespace Ptn.C17
+open RTree
+
+/-- a tree used in the non-vacuity examples: root 0 with the three branches 1-(3,4), 2, 5-6-7 -/
+def exTree : RTree :=
+  .node 0 [.node 1 [.node 3 [], .node 4 []], .node 2 [], .node 5 [.node 6 [.node 7 []]]]
+
+example : exTree.WF := by decide
+
+/-! ### Paths -/
+
+/-- `path_from_to(a, b)` completes and returns a simple path from `a` to `b`: it starts at `a`,
+    ends at `b`, consecutive nodes are neighbours, no node repeats. -/
+theorem path_from_to_correct (t : RTree) (hwf : t.WF) (a b : Nat) (ha : a ∈ ids t)
+    (hb : b ∈ ids t) : ∃ p, pathFromTo t a b = some p ∧ IsSimplePath t p a b := by
+  by_cases hab : a = b
+  · subst hab
+    exact ⟨[a], by simp [pathFromTo], by simp [IsSimplePath, ha, Chain]⟩
+  · obtain ⟨pre, c, xs, ys, hpa, hpb, hd, hp⟩ := pathFromTo_shape hwf ha hb hab
+    refine ⟨_, hp, ?_, ?_, ?_, ?_, ?_⟩
+    · exact head_of_last ((pathDown_ends a).1 t _ hpa).2
+    · exact last_of_last ((pathDown_ends b).1 t _ hpb).2
+    · intro x hx
+      simp only [List.mem_append, List.mem_reverse, List.mem_cons] at hx
+      rcases hx with hx | rfl | hx
+      · exact (pathDown_subset a).1 t _ hpa x (by simp [hx])
+      · exact (pathDown_subset a).1 t _ hpa x (by simp)
+      · exact (pathDown_subset b).1 t _ hpb x (by simp [hx])
+    · have h1 := chain_append_right ((pathDown_chain a).1 t _ hpa)
+      have h2 := chain_append_right ((pathDown_chain b).1 t _ hpb)
+      apply chain_glue
+      · have := chain_reverse h1
+        simp only [List.reverse_cons] at this
+        exact chain_mono (fun x y h => Or.inr h) this
+      · exact chain_mono (fun x y h => Or.inl h) h2
+    · exact nodup_fork' (pathDown_nodup hwf hpa) (pathDown_nodup hwf hpb) hd
+
+example : pathFromTo exTree 4 7 = some [4, 1, 0, 5, 6, 7] := by decide
+example : pathFromTo exTree 7 5 = some [7, 6, 5] := by decide
+example : IsSimplePath exTree [4, 1, 0, 5, 6, 7] 4 7 := by decide
+
+/-- Every simple path from `a` to `b` is the list `path_from_to(a, b)` returns: "the result of
+    elementary graph search" is a well-defined notion and the routine computes it. -/
+theorem simple_path_is_path_from_to (t : RTree) (hwf : t.WF) (a b : Nat) (p : List Nat)
+    (h : IsSimplePath t p a b) : pathFromTo t a b = some p := by
+  have ha : a ∈ ids t := h.2.2.1 a (List.mem_of_head? h.1)
+  have hb : b ∈ ids t := h.2.2.1 b (List.mem_of_getLast? h.2.1)
+  by_cases hab : a = b
+  · subst hab
+    rw [simple_path_self h]; simp [pathFromTo]
+  · obtain ⟨pre, c, xs, ys, hpa, hpb, hd, hp⟩ := pathFromTo_shape hwf ha hb hab
+    rw [hp, simple_path_shape hwf h hpa hpb hd]
+
+/-- Two simple paths between the same end points are equal. -/
+theorem simple_path_unique (t : RTree) (hwf : t.WF) (a b : Nat) (p q : List Nat)
+    (hp : IsSimplePath t p a b) (hq : IsSimplePath t q a b) : p = q := by
+  have h1 := simple_path_is_path_from_to t hwf a b p hp
+  have h2 := simple_path_is_path_from_to t hwf a b q hq
+  rw [h1] at h2
+  exact Option.some.inj h2
+
+example : IsSimplePath exTree [3, 1, 0, 2] 3 2 := by decide
+
+/-! ### Linearisation -/
+
+/-- `linearise` is a rearrangement of the node identifiers (every node exactly once), every child
+    comes before its parent, and the root comes last. -/
+theorem linearise_postorder (t : RTree) (hwf : t.WF) :
+    (postorder t).Perm (ids t) ∧ (postorder t).Nodup ∧
+    (∀ p x, (p, x) ∈ edges t → Before x p (postorder t)) ∧
+    (postorder t).getLast? = some t.rid :=
+  ⟨postorder_perm.1 t, (postorder_perm.1 t).symm.nodup hwf, postorder_child_before.1 t,
+   postorder_last t⟩
+
+example : postorder exTree = [3, 4, 1, 2, 7, 6, 5, 0] := by decide
+
+/-! ### Distances -/
+
+/-- `distance_to_node(c)` completes; the keys of the table are exactly the node identifiers, each
+    once, and the value stored for `v` is the number of edges of the path from `c` to `v`. -/
+theorem distance_correct (t : RTree) (hwf : t.WF) (c : Nat) (hc : c ∈ ids t) :
+    ∃ tbl, distanceToNode t c = some tbl ∧ (tbl.map (·.1)).Perm (ids t) ∧
+      ∀ v d, (v, d) ∈ tbl → ∃ p, pathFromTo t c v = some p ∧ d + 1 = p.length := by
+  obtain ⟨r, hr⟩ := (reroot_isSome c).1 t [] hc
+  obtain ⟨hrid, hperm, hadj⟩ := (reroot_spec c).1 t [] r hr
+  simp only [idsL_nil, List.nil_append, edgesL_nil] at hperm hadj
+  have hwfr : r.WF := hperm.symm.nodup hwf
+  refine ⟨depths 0 r, by simp [distanceToNode, hr], ?_, ?_⟩
+  · rw [depths_keys.1 r 0]; exact hperm
+  · intro v d hvd
+    obtain ⟨p, hp, hd⟩ := depths_value.1 r 0 v d hwfr hvd
+    refine ⟨p, ?_, by omega⟩
+    apply simple_path_is_path_from_to t hwf
+    obtain ⟨h1, h2, h3, h4, h5⟩ := pathDown_isSimplePath hwfr hp
+    refine ⟨hrid ▸ h1, h2, fun x hx => hperm.subset (h3 x hx), ?_, h5⟩
+    exact chain_mono (fun a b hab => (hadj a b).mp hab) h4
+
+example : distanceToNode exTree 6 =
+    some [(6, 0), (5, 1), (0, 2), (1, 3), (3, 4), (4, 4), (2, 3), (7, 1)] := by decide
+
+/-! ### Subtree and leaf queries -/
+
+/-- `find_subtree_of_node(x)` completes; it lists `x` first and then, without repetition, exactly
+    the nodes below `x` (those whose way to the root passes through `x`). -/
+theorem subtree_correct (t : RTree) (hwf : t.WF) (x : Nat) (hx : x ∈ ids t) :
+    ∃ l, subtreeIds t x = some l ∧ l.head? = some x ∧ l.Nodup ∧ ∀ y, y ∈ l ↔ IsBelow t x y := by
+  obtain ⟨s, hs⟩ := (subtreeAt_isSome x).1 t hx
+  refine ⟨ids s, by simp [subtreeIds, hs], ?_, subtree_nodup hwf hs, ?_⟩
+  · rw [ids_eq_rid_cons, ((subtreeAt_basic x).1 t s hs).1]; simp
+  · intro y; exact (subtreeAt_below x y).1 t s hwf hs
+
+/-- `leaves_under_node(x)` lists exactly the childless nodes among the nodes of
+    `find_subtree_of_node(x)`, in the same order. -/
+theorem leaves_under_correct (t : RTree) (hwf : t.WF) (x : Nat) (hx : x ∈ ids t) :
+    ∃ l, subtreeIds t x = some l ∧ leavesUnder t x = some (l.filter (isLeaf t)) := by
+  obtain ⟨s, hs⟩ := (subtreeAt_isSome x).1 t hx
+  refine ⟨ids s, by simp [subtreeIds, hs], ?_⟩
+  simp only [leavesUnder, hs, Option.map_some, Option.some.injEq]
+  rw [leavesOf_eq_filter.1 s (subtree_nodup hwf hs)]
+  exact List.filter_congr (fun y hy => isLeaf_subtree hwf hs hy)
+
+/-- `find_subtree_size_of_node(x)` is the number of nodes of `find_subtree_of_node(x)`. -/
+theorem subtree_size_correct (t : RTree) (x : Nat) :
+    subtreeSize t x = (subtreeIds t x).map List.length := by
+  simp only [subtreeSize, subtreeIds, Option.map_map]
+  congr 1
+  funext s
+  exact size_eq.1 s
+
+example : subtreeIds exTree 5 = some [5, 6, 7] := by decide
+example : leavesUnder exTree 1 = some [3, 4] := by decide
+example : IsBelow exTree 5 7 := ⟨[0, 5, 6, 7], by decide, by decide⟩
+
 end Ptn.C17
